@@ -190,6 +190,10 @@ func (m *StringifiedMessage) encode(d *Decoder, sb *strings.Builder, tagType byt
 		}
 		sb.WriteString("]")
 	case TagList:
+		if err := d.enter(); err != nil {
+			return err
+		}
+		defer d.leave()
 		listType, err := d.r.ReadByte()
 		if err != nil {
 			return err
@@ -215,6 +219,10 @@ func (m *StringifiedMessage) encode(d *Decoder, sb *strings.Builder, tagType byt
 		}
 		sb.WriteString("]")
 	case TagCompound:
+		if err := d.enter(); err != nil {
+			return err
+		}
+		defer d.leave()
 		first := true
 		for {
 			tt, tn, err := d.readTag()
